@@ -68,6 +68,8 @@ def gen_value(rng: random.Random, res: T.Resolver, t: list, in_range: bool = Fal
         if el[0] == "utf8":
             return gen_string(rng, cap)
         if el[0] == "byte":
+            if k == "var" and rng.random() < 0.12:
+                return gen_string(rng, cap)  # serialize() accepts a str for a byte array: its UTF-8 octets
             b = bytes(rng.randrange(256) for _ in range(n))
             return b if rng.random() < 0.7 else list(b)
         return [gen_value(rng, res, el, in_range, p_omit, depth + 1) for _ in range(n)]
@@ -131,6 +133,8 @@ def alt_containers(rng: random.Random, res: T.Resolver, t: list, v):
             b = v.encode("utf-8")
             return rng.choice([b, bytearray(b), v])
         if el[0] == "byte":
+            if isinstance(v, str):
+                return rng.choice([v, v.encode("utf-8"), list(v.encode("utf-8"))])
             b = bytes(v)
             return rng.choice([b, bytearray(b), list(b), tuple(b)])
         if isinstance(v, (list, tuple)):
